@@ -369,8 +369,11 @@ def analytic_flow_check(indict, marker, solvers, seed, hsym="__h"):
     s = ana[0]
     ps = truthcheck.parse_system(indict, marker)
     h = sympy.Symbol(hsym)
-    props = {sympy.Symbol(k): refsol.parse(v, marker) for k, v in s["propagators"].items()}
-    upd = {v: refsol.parse(e, marker).subs(props) for v, e in s["update_expressions"].items()}
+    # the decimal literals of the returned strings denote exact rationals: evaluate them as such, so that the 45-digit
+    # arithmetic below is not limited by 15-digit Float atoms (1e14*I - exp(-1e-14*h)*(1e14*I - y) cancels catastrophically)
+    _exact = lambda e: sympy.nsimplify(e, rational=True)      # noqa: E731
+    props = {sympy.Symbol(k): _exact(refsol.parse(v, marker)) for k, v in s["propagators"].items()}
+    upd = {v: _exact(refsol.parse(e, marker)).subs(props) for v, e in s["update_expressions"].items()}
     svars = s["state_variables"]
     if any(v not in ps["rhs"] for v in svars):
         out["skipped"] = "function-of-time variable in the analytic solver (covered by C05)"
@@ -412,7 +415,7 @@ def analytic_flow_check(indict, marker, solvers, seed, hsym="__h"):
                 lhs = sympy.N(dupd[v].subs(d), 45)
                 st = dict(pt)
                 st.update({x: u1[w] for w, x in zip(svars, xs)})
-                rhs = sympy.N(ps["rhs"][v].subs(st), 45)
+                rhs = sympy.N(_exact(ps["rhs"][v]).subs(st), 45)
                 if abs(lhs - rhs) > sympy.Float("1e-7") * (1 + abs(rhs)):
                     out["problems"].append({"law": "d/dh update = rhs(updated state)", "variable": v, "got": str(lhs), "want": str(rhs), "h": str(h1)})
             u12 = U(h1 + h2, st0)
@@ -422,11 +425,49 @@ def analytic_flow_check(indict, marker, solvers, seed, hsym="__h"):
                     out["problems"].append({"law": "step(h1) then step(h2) = step(h1+h2)", "variable": v, "got": str(u2[v]), "want": str(u12[v])})
         except Exception as e:
             out.setdefault("eval_errors", []).append(type(e).__name__ + ": " + str(e)[:120])
+        if trial == 0 and not out["problems"]:
+            try:
+                out["problems"] += _taylor_problems(upd, xs, svars, ps, h, pt)
+                out["taylor_checked"] = True
+            except Exception as e:
+                out.setdefault("eval_errors", []).append("taylor: " + type(e).__name__ + ": " + str(e)[:120])
         if out["problems"]:
             out["point"] = {str(k): str(v) for k, v in pt.items()}
             out["h1"], out["h2"] = str(h1), str(h2)
             break
     return out
+
+
+def _taylor_problems(upd, xs, svars, ps, h, pt):
+    """Coefficient-wise comparison, with a RELATIVE tolerance per coefficient, of the Taylor expansion of the update map in the
+    step size at h = 0 with that of the true flow of x' = F(x) = A x + b:  u = x + h F(x) + h^2/2 J F(x) + ...  Every
+    coefficient (of each state variable, and the constant part) of the first and second h-derivative is compared separately,
+    so a term that is many orders of magnitude smaller than the others (a femto-ampere offset next to a millivolt state, a
+    1e-15 self-coupling) is not drowned by an absolute tolerance."""
+    import sympy
+    R = lambda e: sympy.nsimplify(e, rational=True)      # noqa: E731   (floats of the text -> the exact rationals they denote)
+    F = {v: R(ps["rhs"][v]) for v in svars}
+    zero = {x: 0 for x in xs}
+    par = {k: v for k, v in pt.items() if k not in xs}
+    T1 = F
+    T2 = {v: sum(sympy.diff(F[v], x) * F[w] for w, x in zip(svars, xs)) for v in svars}
+    probs = []
+    for k, T in ((1, T1), (2, T2)):
+        for v in svars:
+            got_e = sympy.diff(R(upd[v]), h, k).subs(h, 0)
+            parts = [("constant part", None)] + [("coefficient of " + w, x) for w, x in zip(svars, xs)]
+            vals = []
+            for name, x in parts:
+                g = (got_e if x is None else sympy.diff(got_e, x)).subs(zero).subs(par)
+                w_ = (T[v] if x is None else sympy.diff(T[v], x)).subs(zero).subs(par)
+                vals.append((name, sympy.N(g, 40), sympy.N(w_, 40)))
+            scale = max([abs(w_) for _, _, w_ in vals] + [0])
+            for name, g, w_ in vals:
+                tol = sympy.Float("1e-9") * abs(w_) if w_ != 0 else sympy.Float("1e-12") * (1 + scale)
+                if not (abs(g - w_) <= tol):
+                    probs.append({"law": "Taylor coefficient of the update in the step size (order %d), %s" % (k, name), "variable": v,
+                                  "got": str(g)[:40], "want": str(w_)[:40]})
+    return probs
 
 
 def _asm_error_kind(msg):
